@@ -6,6 +6,7 @@ CFG = {
         J("prod", "witness --only C08"),
         J("scaled", "c08", shard=12, timeout=2400, imports="Base Stream Inst Run RunC08"),
         J("prod", "c08", timeout=2400),
+        J("scaled", "c08-stack"),
     ],
     "rule": "valid archives < 2 KiB in all 4 layer combinations (scaled and production constants), then 1-3 structured mutations each: "
             "truncation at any length, bit flip, byte substitution {00,01,7f,80,fe,ff}, 4/8-byte field overwrite at any offset with "
